@@ -60,8 +60,16 @@ fn timeout_choice(t: &mut Tape) -> (Option<TimeoutSettings>, u64, Option<u64>, u
     // a connect timeout of None is legal: connect blocks as long as the kernel tries, reads stay bounded
     let c = if t.draw(CFG, 5) == 0 { None } else { Some(pick(t)) };
     let retries = t.draw(CFG, 3);
+    // every public way of constructing the settings must give the same timeouts: half of the cases go
+    // through deserialisation
+    let ts = if t.draw(CFG, 2) == 0 {
+        TimeoutSettings::new(Some(r), w, c, retries as usize).unwrap()
+    } else {
+        let dj = |d: Option<Duration>| d.map_or(Value::Null, |x| json!({"secs": x.as_secs(), "nanos": x.subsec_nanos()}));
+        serde_json::from_value::<TimeoutSettings>(json!({"read": dj(Some(r)), "write": dj(w), "connect": dj(c), "retries": retries})).expect("valid settings deserialise")
+    };
     (
-        Some(TimeoutSettings::new(Some(r), w, c, retries as usize).unwrap()),
+        Some(ts),
         r.as_nanos() as u64,
         c.map(|c| c.as_nanos() as u64),
         retries,
